@@ -102,10 +102,33 @@ def run_schedule(mod, max_size, programs, plan, opcodes=False, idle=None, fail_c
         Obj.answers, Obj.clock = sched.answers, clock
         if timed:
             Obj.on_stamp = lambda o, v: sched.trace.append((sched.tid(), f"stamp {o.i} {int(v)}"))
+        sched.late_expiry = []        # (C09's clause) a connection handed out although it had idled out by the time the caller got hold of the pool
+        acq_clock = {}
+        sched.on_acquire = lambda tid_: acq_clock.__setitem__(tid_, clock["t"])
+        used_append = used.append
+
+        def append_checked(o):
+            # judged against the clock at the moment this caller ACQUIRED the pool's lock: whatever clock value the pool decides on, it reads it no
+            # earlier than that if it reads it inside the lock hold - a value read before waiting for the lock may be arbitrarily stale
+            t_acq = acq_clock.get(sched.tid())
+            t_rel = getattr(o, "freed_rel", None)        # the clock when the lock hold that gave the connection back ENDED (no stamp can be later than that)
+            if t_rel is not None and t_acq is not None and t_acq - t_rel > 5:
+                sched.late_expiry.append(f"connection {o.i} was handed out although it had been idle for {t_acq - t_rel:g} s when the caller got hold of the pool (pool_idle_timeout 5)")
+            o.freed_rel = None
+            used_append(o)
+        used.append = append_checked
         free_append = free.append
+
+        pending_free = {}
+
+        def on_release(tid_):
+            for o_ in pending_free.pop(tid_, []):
+                o_.freed_rel = clock["t"]
+        sched.on_release = on_release
 
         def append_stamped(o):
             o.freed_at = clock["t"]           # the moment the connection becomes available again
+            pending_free.setdefault(sched.tid(), []).append(o)
             free_append(o)
         free.append = append_stamped
     holding = {}
